@@ -1,7 +1,9 @@
-/- Driver entry for property C08: one request payload in, one canonical response line out. -/
+/- Driver entry for property C08: one request payload in, one canonical response line out
+(mol2 / xyz writer and reader models; protocol in Molli/Driver/TextIO.lean). -/
 import Molli.Util.Basic
+import Molli.Driver.TextIO
 namespace Molli.Driver.C08
 
-def handle (_payload : String) : String := "err:not-implemented"
+def handle (payload : String) : String := Molli.Driver.TextIO.handle payload
 
 end Molli.Driver.C08
